@@ -11,7 +11,7 @@ RULE = (
     "compared; distinct = distinct event-log digests among those."
 )
 PROBES = [">=3-blocks", "partial-last-block", "sub-range-before-EOF", "dedisperse:gulp-raised-to-2maxdelay", "dedisperse:maxdelay>0",
-          "block-across-file-boundary", "fault-in-block>=1", "gulp>range", "two-gulps-compared", "sub-byte", "start>0", "second-window-on-same-reader", "pre-history-call", "big-blocks", "start>0-with-default-nsamps", "default-gulp", "held-result-rechecked", "data-with-blank-stretches", "reentrant-call-inside-allocator"] + [
+          "block-across-file-boundary", "fault-in-block>=1", "gulp>range", "two-gulps-compared", "sub-byte", "start>0", "second-window-on-same-reader", "pre-history-call", "big-blocks", "start>0-with-default-nsamps", "default-gulp", "held-result-rechecked", "data-with-blank-stretches", "reentrant-call-inside-allocator", "earlier-session"] + [
     f"ok:{n}" for n in ["collapse", "bandpass", "read_chan", "dedisperse", "compute_stats", "compute_stats_basic"]]
 COMPONENTS = {
     "real": ["sigpyproc.base.Filterbank.{collapse,bandpass,read_chan,dedisperse,compute_stats,compute_stats_basic}",
